@@ -79,7 +79,7 @@ RULE = ("case = session on one state object (kind) of 1..3 consecutive fit calls
         "constructor case with >= 1 non-None argument; distinct by hash of the case")
 EXTRA_TRUSTED = [
     "C12: user callbacks are modelled only through the stop requests they make (Req) and the assignments to stop_training they attempt (Asg: the "
-    "setter's refusal and the exception escaping from fit are modelled, C12_exception_trace); other exceptions raised by callbacks, clearing the flag "
+    "setter's refusal and the exception escaping from fit are modelled, C12_exception_trace_partial); other exceptions raised by callbacks, clearing the flag "
     "in mid-run, progress bars and GPU paths are not modelled; `_shuffle_data` is assumed to succeed (its error cases belong to C07)",
 ]
 
@@ -539,14 +539,14 @@ def one_call(ctx, case, kind, st, data_bases, hold, objs, run, r_idx, sess, m, s
         # audit 3 (B4): non-bool objects are undocumented input and WHAT a raising assignment leaves behind is a partial effect the
         # property does not speak about (a store-then-raise setter honours every request): no property-level verdict, and the run that
         # follows is judged from the flag it actually finds at entry.  Kept as an AUXILIARY point (never a replayable violation): it is the
-        # tie between the model's notion of "a stop is requested" (C12_refused_request_leaves_flag: a refused assignment is no request) and
+        # tie between the model's notion of "a stop is requested" (C12_refused_request_leaves_flag_partial: a refused assignment is no request) and
         # the flag of the code, on which the property's "a run started with a stop already requested" rests; the stored change M3_C12_1
         # (store, then raise) is reported through it as `no-failing-input-found`
         ctx.info(f"{kind}/refused-stop-request: an assignment to stop_training that raises leaves the flag (public property) unchanged",
                  bool(refused_ok), True)
         ctx.point("an assignment to stop_training that raises leaves the flag (public property) unchanged (model-code tie of 'requested')", "aux",
                   bool(refused_ok), True, ctx.current_case, exact=True, sig=f"{kind}/refused-stop-request",
-                  theorem="C12_refused_request_leaves_flag (which objects are refused is not judged; C12_sticky / C12_session_stopped take the flag at entry as given)")
+                  theorem="C12_refused_request_leaves_flag_partial (which objects are refused is not judged; C12_sticky / C12_session_stopped take the flag at entry as given)")
     # ---- the option objects of this call
     fl, it = sess.get("fl") or qc.Flags(None), sess.get("it") or qc.Ints(None)
     fam = int_family(getattr(it, "iseed", None))
@@ -1249,7 +1249,7 @@ def asg_case(ctx, case):
     r = asg_run(case)
     st, rec, err, nb = r["st"], r["rec"], r["err"], r["nb"]
     sig = f"{kind}/fit-asg"
-    thm = "C12_refused_request_leaves_flag"
+    thm = "C12_refused_request_leaves_flag_partial"
     log = [en for en in rec.log if en[0] != "sched"]
     calls = [en for en in log if en[0] == "call"]
     # ---- effect of every executed assignment (independent of the model; any exception type is a refusal)
@@ -1291,16 +1291,16 @@ def asg_case(ctx, case):
         # "a refused non-bool assignment is not a request and leaves the flag")
         judged("event trace of a run whose callbacks assign to stop_training == protocol reference for the requests that were ACCEPTED",
                rec.ucalls == exp_ucalls, detail={"impl": rec.ucalls[:40], "expected": exp_ucalls[:40], "outcomes": rec.outcomes[:6]},
-               sig_=f"{sig}/protocol", theorem="C12_refused_request_leaves_flag, C12_protocol, C12_stop_in_batch, C12_stop_at_epoch_end")
+               sig_=f"{sig}/protocol", theorem="C12_refused_request_leaves_flag_partial, C12_protocol, C12_stop_in_batch, C12_stop_at_epoch_end")
         judged("final flag == some accepted request", final["stop"] == exp_stop, detail={"impl": final["stop"], "expected": exp_stop},
-               sig_=f"{sig}/final-flag", theorem="C12_refused_request_leaves_flag, C12_sticky")
+               sig_=f"{sig}/final-flag", theorem="C12_refused_request_leaves_flag_partial, C12_sticky")
         judged("one optimizer step per batch begun", final["ver"] == sum(1 for ev in exp_events if ev[0] == "bs"),
                sig_=f"{sig}/opt-count", theorem="C12_param_window")
-        ctx.oracle("fit raised although no callback let an exception out", True, case, sig=f"{sig}/exception", theorem="C12_exception_trace")
+        ctx.oracle("fit raised although no callback let an exception out", True, case, sig=f"{sig}/exception", theorem="C12_exception_trace_partial")
         ctx.count("asg_run:returned" + (",although a refused assignment was not caught" if escaped else ""))
     else:
         ctx.oracle("fit raised although no callback let an exception out", escaped is not None, case,
-                   detail=f"{type(err).__name__}: {err}", sig=f"{sig}/exception", theorem="C12_exception_trace")
+                   detail=f"{type(err).__name__}: {err}", sig=f"{sig}/exception", theorem="C12_exception_trace_partial")
         ctx.count(f"asg_run:exception escaped from fit ({type(err).__name__})")
         ctx.count("escape:train-end seen after the exception=" + str(any(c[2] == ["te"] for c in calls)))
         # ---- flag persistence: what the aborted call leaves is the OR of the requests made before the exception; the next call on the
@@ -1319,7 +1319,7 @@ def asg_case(ctx, case):
         ctx.oracle("the call after an aborted call: silent iff a stop had been requested, otherwise a complete fresh run",
                    err2 is None and rec2.ucalls == exp2u, case,
                    detail={"error": repr(err2), "impl": rec2.ucalls[:30], "expected": exp2u[:30], "flag": final["stop"]},
-                   sig=f"{sig}/call-after-escape", theorem="C12_exception_trace, C12_stopped_run_is_noop, C12_protocol")
+                   sig=f"{sig}/call-after-escape", theorem="C12_exception_trace_partial, C12_stopped_run_is_noop, C12_protocol")
     # ---- the model (QV.Train.fitAsg): setter as the code has it; verdicts only where implementation and model agree on WHICH
     # assignments are refused (which objects a setter refuses is not part of the property: a setter accepting np.bool_ violates nothing)
     if ctx.driver is not None:
@@ -1345,11 +1345,11 @@ def asg_case(ctx, case):
             m_final = {"stop": m["stop"], "ver": m["ver"], "sched": m["sched"]}
             if all_bool:
                 ctx.point("events (callbacks assigning to stop_training)", "property", [g[0][2] for g in groups], m["events"], case, exact=True,
-                          sig=f"{sig}/events", theorem="C12_refused_request_leaves_flag, C12_protocol")
+                          sig=f"{sig}/events", theorem="C12_refused_request_leaves_flag_partial, C12_protocol")
                 ctx.point("log (callbacks assigning to stop_training)", "property", log, m_log,
-                          case, exact=True, sig=f"{sig}/log", theorem="C12_refused_request_leaves_flag, C12_sticky, C12_param_window")
+                          case, exact=True, sig=f"{sig}/log", theorem="C12_refused_request_leaves_flag_partial, C12_sticky, C12_param_window")
                 ctx.point("final (callbacks assigning to stop_training)", "property", final, m_final,
-                          case, exact=True, sig=f"{sig}/final", theorem="C12_refused_request_leaves_flag, C12_sticky")
+                          case, exact=True, sig=f"{sig}/final", theorem="C12_refused_request_leaves_flag_partial, C12_sticky")
             else:
                 # audit 3 (B4): the case offers a non-bool object (the model: refused, not a request, flag left): recorded only
                 ctx.info(f"{sig}/events (case offers a non-bool object)", [g[0][2] for g in groups], m["events"])
